@@ -165,6 +165,19 @@ def check(case, rec=None):
                     if fr.meta["connectedpixels"].get("nlabel") != n2:
                         fails.append(fail("meta", "sparse_connected_pixels meta nlabel wrong",
                                           target=name))
+                    # the same frame labelled again with another threshold (nothing above it), and back: the count kept
+                    # with the labels is that of the labelling last done
+                    ok3, n3 = guard(sparseframe.sparse_connected_pixels, fr, threshold=float(v.max()) + 1.0)
+                    if ok3 and (n3 != 0 or fr.meta["connectedpixels"].get("nlabel") != 0):
+                        fails.append(fail("meta", "frame labelled a second time above its largest value: %s objects "
+                                          "returned, %s kept with the labels" %
+                                          (n3, fr.meta["connectedpixels"].get("nlabel")), target=name))
+                    ok, n2 = guard(sparseframe.sparse_connected_pixels, fr, threshold=th)
+                    if ok:
+                        sl = fr.pixels["connectedpixels"]
+                        if fr.meta["connectedpixels"].get("nlabel") != n2:
+                            fails.append(fail("meta", "frame labelled a third time: %s objects returned, %s kept with "
+                                              "the labels" % (n2, fr.meta["connectedpixels"].get("nlabel")), target=name))
             else:
                 # frames: this one, an empty one, one that stores only pixels not above the threshold (when the
                 # list has any), this one again - read from a file as a window of a longer scan (frames 1..4 of 6)
@@ -217,6 +230,28 @@ def check(case, rec=None):
                                       target=name))
                 d[i, j] = np.where(v > th, sl, 0)
             fails += labels_ok(d, n2, ref8, nref8, name, above)
+    # --- a detector image (whole numbers) cut at a fractional level straight into a sparse frame, labelled at that level:
+    #     the components of the pixels above the level
+    if max(ns, nf) <= 64 and not fails:
+        imu = np.clip(np.rint(im), 0, 65535).astype(np.uint16)
+        for frac in (0.25, 0.5, 0.75):
+            cutf = float(np.floor(th)) + frac if th >= 0 else frac
+            ab2 = imu > cutf
+            if not ab2.any():
+                continue
+            ok, fr2 = guard(sparseframe.from_data_cut, imu, cutf)
+            if ok:
+                ok, n4 = guard(sparseframe.sparse_connected_pixels, fr2, threshold=cutf)
+            if not ok:
+                fails.append(exc_failure("from_data_cut / sparse_connected_pixels", fr2 if not isinstance(fr2, sparseframe.sparse_frame) else n4))
+                break
+            d2 = np.zeros(im.shape, np.int32)
+            d2[fr2.row, fr2.col] = fr2.pixels["connectedpixels"]
+            r2_, n2_ = oracles.components_scipy(ab2, 1)
+            f_ = labels_ok(d2, n4, r2_, n2_, "from_data_cut(uint16, cut %.2f) + sparse_connected_pixels" % cutf, ab2)
+            fails += f_
+            if f_:
+                break
     if rec is not None:
         nonconv = nonconvex_count(ref, nref)
         # provisional labels: a new label is created for every pixel with no labelled
